@@ -533,6 +533,7 @@ class Machine:
             # modelled timer thread: it may set the flag between any two observations of it
             if self.stop_countdown == 0:
                 self.stop_countdown = -1
+                if self.timer is not None and self.timer.get('armed'): self.timer['fired'] = True
                 self.call('time_out::stop_query', [])
             else:
                 self.stop_countdown -= 1
